@@ -36,6 +36,7 @@ class Prop(C02):
         if obs and obs[0] == -1:
             return 'panic in the RIB'
         full, best, addp = {}, {}, {}
+        delta = {}    # an add-path exporter that re-sends a path only if it is new to it or named by replaced_path_id
         deferring = False
         for k, (o, step) in enumerate(zip(c['ops'], obs)):
             chs, lim, st = step
@@ -53,6 +54,17 @@ class Prop(C02):
                 if ac:
                     if paths: addp[net] = ids
                     else: addp.pop(net, None)
+                    # end_deferral's changes are a fresh dump (best_changed and any_changed
+                    # both set for every destination): the exporter advertises them all
+                    cur = {} if o[0] == 'enddef' else delta.get(net, {})
+                    nxt = {}
+                    for i in ids:
+                        if i[0] in cur and (not rep or rep[0] != i[0]):
+                            nxt[i[0]] = cur[i[0]]
+                        else:
+                            nxt[i[0]] = i[1:]
+                    if nxt: delta[net] = nxt
+                    else: delta.pop(net, None)
             loc = {x[0]: x for x in st[0]}
             # destination ids unique among live prefixes
             dids = [x[1] for x in st[0]]
@@ -74,6 +86,9 @@ class Prop(C02):
             want_best = {n: v[0][1:] for n, v in want_full.items()}
             if best != want_best:
                 return 'step %d: a consumer skipping best_changed=false holds %s, the best paths are %s' % (k, best, want_best)
+            want_delta = {n: {p[0]: p[1:] for p in v} for n, v in want_full.items()}
+            if delta != want_delta:
+                return 'step %d: an add-path exporter that re-sends only new paths and the one named by replaced_path_id holds %s, the Loc-RIB is %s' % (k, delta, want_delta)
             if addp != want_full:
                 return 'step %d: a consumer skipping any_changed=false holds %s, the Loc-RIB is %s' % (k, addp, want_full)
         return None
